@@ -67,6 +67,9 @@ type Gen struct {
 	stratum int
 	resend  []GenTx // refused txs that may be included again later
 	calm    bool    // current block: valid txs only (to fill the block gas meter)
+	// mixed-lane blocks: senders reserved for the failing Cosmos-lane txs, and "this Ethereum tx must simply execute"
+	avoid      map[string]bool
+	forceValid bool
 }
 
 // NewGen builds a fresh harness chain (small-magnitude genesis, standard contract menu).
@@ -114,6 +117,12 @@ func (g *Gen) ethSpec(nextNonce map[string]uint64, baseFee int64) drivers.EthSpe
 		forceKind, forcePert = k%nKinds, k/nKinds
 	}
 	i := r.Intn(len(w.C.Accts))
+	for g.avoid[fmt.Sprintf("a%d", i)] {
+		i = (i + 1) % len(w.C.Accts)
+	}
+	if g.forceValid {
+		forceKind, forcePert = pick(r, 0, 2), 31
+	}
 	from := w.C.Accts[i]
 	s := drivers.EthSpec{From: from, FromName: fmt.Sprintf("a%d", i), Signer: from, Chain: "ok", Tamper: "none", Shape: "ok", Init: "none", Runtime: "none", NewAddr: "none"}
 	seq, ok := nextNonce[s.FromName]
@@ -238,16 +247,96 @@ func (g *Gen) cosmosSend(nextNonce map[string]uint64, baseFee int64) GenTx {
 		amount = 2_000_000_000
 	}
 	gas := uint64(125000)
+	aim := "cosmos"
+	if r.Intn(4) == 0 {
+		// runs out of its OWN gas limit (code 11 "out of gas", like a block gas overflow, but the block gas meter is fine)
+		gas = uint64(30000 + r.Intn(30001))
+		aim = "cosmos-own-gas"
+	}
 	price := baseFee + int64(r.Intn(3))
 	msg := banktypes.NewMsgSend(from.Acc(), w.U.A(toName).Bytes(), sdk.NewCoins(sdk.NewInt64Coin(chain.Denom, amount)))
 	bz, err := w.C.CosmosTx(from, []sdk.Msg{msg}, chain.CosmosTxOpts{Gas: gas, GasPrice: price, Seq: &useSeq})
 	if err != nil {
 		panic(err)
 	}
-	if useSeq == seq && w.C.Bal(from.Addr, chain.Denom).Int64() >= int64(gas)*price {
+	if useSeq == seq && gas >= 125000 && w.C.Bal(from.Addr, chain.Denom).Int64() >= int64(gas)*price {
 		nextNonce[fname] = seq + 1
 	}
-	return GenTx{Bz: bz, Eth: false, From: fname, Aim: "cosmos"}
+	return GenTx{Bz: bz, Eth: false, From: fname, Aim: aim}
+}
+
+// cosmosFail builds a Cosmos-lane bank send from a reserved sender that fails in a chosen way, without touching the
+// block gas meter's limit: "oog" (its own gas limit far below need => code 11), "funds" (amount above balance),
+// "seq" (future sequence), "sig" (bad signature => unauthorized).
+func (g *Gen) cosmosFail(kind string, i int, baseFee int64) GenTx {
+	r, w := g.R, g.W
+	from := w.C.Accts[i]
+	seq := w.C.Seq(from.Addr)
+	o := chain.CosmosTxOpts{Gas: 125000, GasPrice: baseFee + int64(r.Intn(3)), Seq: &seq}
+	amount := int64(1 + r.Intn(50))
+	switch kind {
+	case "oog":
+		o.Gas = uint64(30000 + r.Intn(30001))
+	case "funds":
+		amount = 2_000_000_000
+	case "seq":
+		s2 := seq + 1
+		o.Seq = &s2
+	case "sig":
+		o.BadSig = true
+	}
+	msg := banktypes.NewMsgSend(from.Acc(), w.U.A(pick(r, "a0", "a1", "x2")).Bytes(), sdk.NewCoins(sdk.NewInt64Coin(chain.Denom, amount)))
+	bz, err := w.C.CosmosTx(from, []sdk.Msg{msg}, o)
+	if err != nil {
+		panic(err)
+	}
+	return GenTx{Bz: bz, Eth: false, From: fmt.Sprintf("a%d", i), Aim: "cosmos-fail-" + kind}
+}
+
+// MixedLaneBlock: failing Cosmos-lane txs (own-gas out of gas first, then two other failure kinds) BEFORE, BETWEEN and AFTER
+// Ethereum txs that simply execute, in one block: C E C E E C.  Three senders are reserved for the Cosmos lane so
+// that the Ethereum txs' nonces are not disturbed.
+func (g *Gen) MixedLaneBlock() (*RecBlock, []GenTx, bool) {
+	r, c := g.R, g.W.C
+	nextNonce := map[string]uint64{}
+	baseFee := c.BaseFee().Int64()
+	perm := r.Perm(len(c.Accts))
+	g.avoid = map[string]bool{}
+	for _, i := range perm[:3] {
+		g.avoid[fmt.Sprintf("a%d", i)] = true
+	}
+	kinds := []string{"oog", "funds", "seq", "sig"}
+	r.Shuffle(len(kinds), func(i, j int) { kinds[i], kinds[j] = kinds[j], kinds[i] })
+	// the own-gas failure is the one a block-gas heuristic can mistake: put it in front in 2 of 3 blocks
+	if r.Intn(3) != 0 {
+		for i, k := range kinds {
+			if k == "oog" {
+				kinds[0], kinds[i] = kinds[i], kinds[0]
+			}
+		}
+	}
+	var txs []GenTx
+	ci := 0
+	g.forceValid = true
+	for _, slot := range "CECEEC" {
+		if slot == 'C' {
+			txs = append(txs, g.cosmosFail(kinds[ci], perm[ci], baseFee))
+			ci++
+			continue
+		}
+		s := g.ethSpec(nextNonce, baseFee)
+		bz, _, _, hash := g.W.BuildEth(s)
+		txs = append(txs, GenTx{Bz: bz, Eth: true, Hash: hash, From: s.FromName, Aim: s.Class, Gas: s.Gas, Type: s.Type, Price: s.Price, Tip: s.Tip})
+	}
+	g.forceValid, g.avoid = false, nil
+	var raw [][]byte
+	var aims []string
+	for _, t := range txs {
+		raw = append(raw, t.Bz)
+		aims = append(aims, t.Aim)
+	}
+	rb, ok := g.Rec.Deliver(raw, aims)
+	return rb, txs, ok
 }
 
 // BigBlock generates and delivers one block with n Ethereum txs: mostly plain transfers and logger calls from the
